@@ -21,7 +21,7 @@ MANIFEST = {
             "verif hook VerifC02DumpVotes; heights modelled as unbounded N (chains below 2^32-1); the certified height is taken "
             "from the header's aggregate commit without checking it (that is C06). Generator keys store not modelled.",
 }
-IMPORTS = "From LE Require Import BFT.Contradiction BFT.Votes Corr.C02."
+IMPORTS = "From LE Require Import BFT.Contradiction BFT.Votes BFT.GenKeys Corr.C02."
 
 
 def change(c):
@@ -36,11 +36,28 @@ def block(b):
 def obs(o):
     if o["err"] != 0:
         return "(err_obs %d %s)" % (o["err"], cbool(o["contra"]))
-    return "(Build_obs 0 %s (%d,%d,%d) %s %s %s %d %s)" % (
+    return "(Build_obs 0 %s (%d,%d,%d) %s %s %s %d %s" % (
         cbool(o["contra"]), o["heights"][0], o["heights"][1], o["heights"][2],
         clist(o["infos"], lambda i: "(%d,%d,%d,%d,%d,%d)" % tuple(i)),
         clist(o["act"], lambda a: "(%d,%d,%d)" % tuple(a)),
-        clist(o["pkeys"]), o["imp"], "None" if o["next"] < 0 else "(Some %d)" % o["next"])
+        clist(o["pkeys"]), o["imp"], "None" if o["next"] < 0 else "(Some %d)" % o["next"]) + gen_obs(o)
+
+
+def gen_obs(o):
+    return " %s %s %s)" % (clist(o.get("gkeys", [])),
+                           clist(o.get("gens", []), lambda g: "(%d, %s)" % (g["h"], "None" if g["err"] else "(Some %s)" % clist(g["addrs"]))),
+                           clist(o.get("at", []), lambda a: "(%d,%d)" % tuple(a)))
+
+
+def gens_of(chg):
+    return [v["a"] for v in chg["vals"]] + list(chg.get("standby") or [])
+
+
+def hist_term_g(c):
+    return "(%d%%nat, %d, %s, %s, %s, %s, %s)" % (
+        c["batch"], c["gh"], change(c["init"]), clist(gens_of(c["init"])),
+        clist(c["blocks"], lambda b: "(%s, %s)" % (block(b), clist(gens_of(b["chg"]) if b["chg"] else []))),
+        cbool(c["initok"]), clist(c["obs"], obs))
 
 
 def hist_term(c):
@@ -49,7 +66,7 @@ def hist_term(c):
 
 
 def evaluate(ck, recs, tag="hist"):
-    res = ck.coq_eval(IMPORTS, "hist_case", "check_hist", [hist_term(c) for c in recs], shard=40, tag=tag)
+    res = ck.coq_eval(IMPORTS, "hist_case_g", "check_hist_g", [hist_term_g(c) for c in recs], shard=40, tag=tag)
     if res is None:
         return
     for c, code in zip(recs, res):
